@@ -21,7 +21,7 @@ pub fn run(cfg: &RunCfg) -> Report {
             stall_ack_stale_ms: *rng.pick(&[500, 1000, 3000]),
             conn_timeout_ms: timeout,
         };
-        let opts = StreamOpts { n_links: 2 + rng.usize_below(3), cfg: sc, ticks: 6000, probing: rng.chance(1, 2), faults: if rng.chance(1, 2) { Faults::Heavy } else { Faults::Paths }, retransmit_pct: 10 + rng.below(20), control_pct: 5, critical_windows: true, big_jumps: rng.chance(1, 3), initial_windows: None, loss_permille: *rng.pick(&[0, 10, 50]), stall_min_in_flight_small: true, echo_fuzz: false, rate_pct: 100 };
+        let opts = StreamOpts { n_links: 2 + rng.usize_below(3), cfg: sc, ticks: 6000, probing: rng.chance(1, 2), faults: if rng.chance(1, 2) { Faults::Heavy } else { Faults::Paths }, retransmit_pct: 10 + rng.below(20), control_pct: 5, critical_windows: true, big_jumps: rng.chance(1, 3), initial_windows: None, loss_permille: *rng.pick(&[0, 10, 50]), stall_min_in_flight_small: true, echo_fuzz: false, rate_pct: 100, short_sends: false };
         let mut m = RouteMon { timeout };
         let mut mons: [&mut dyn Monitor; 1] = [&mut m];
         run_stream(opts, rng, &mut mons, rep);
